@@ -547,8 +547,17 @@ func redactPipelineStage(stage interface{}, redactFieldNames bool, keyPath []str
 	case []any:
 		isSelectivelyRedactable := isRedactableFieldPatternInArray(s)
 		return redactArrayValues(s, redactFieldNames, inSearchStage, isSelectivelyRedactable, keyPath)
-	default:
+	case nil:
 		return stage
+	default:
+		// a scalar where a stage or operator document is expected (e.g. {$or: ["literal", "$a"]})
+		if str, ok := s.(string); ok && len(str) > 0 && str[0] == '$' {
+			if _, isOp := CoreOperators.Get(str); redactFieldNames && !isOp {
+				return HashName(str)
+			}
+			return stage
+		}
+		return redactScalarValue(append(keyPath, ""), stage, inSearchStage, false)
 	}
 }
 
